@@ -90,6 +90,15 @@ class Check:
             cmd = pl.cbmc_cmd(q.unit.cfile, q.entry, q.unwind, q.unwindset + pl.loop_unwindset(q.unit.cfile, q.entry, q.loop_bounds), q.flags + ['--trace'], q.object_bits, q.checks)
             res = pl.run_cbmc(cmd, q.timeout or cap_t, q.mem_gb or cap_m, log=os.path.join(wd, q.name + '.cbmc.log'))
             res['cmd'] = ' '.join(pl.sh_quote(c) for c in cmd)
+            # A per-loop bound is an optimisation keyed on inlining decisions.  If ONLY unwinding assertions fail, the bound may simply
+            # have landed on another loop (different inlining after a source change): decide again with the relaxed global bound.
+            bad = [p for p in res.get('props', []) if p['status'] != 'SUCCESS' and p['desc'] != WITNESS_DESC and p['desc'] not in q.expect_fail]
+            if res['status'] == 'done' and bad and all((p['desc'] or '').startswith('unwinding assertion') for p in bad) and (q.loop_bounds or q.unwindset):
+                cmd2 = pl.cbmc_cmd(q.unit.cfile, q.entry, max(q.unwind, 12), [], q.flags + ['--trace'], q.object_bits, q.checks)
+                res2 = pl.run_cbmc(cmd2, q.timeout or cap_t, q.mem_gb or cap_m, log=os.path.join(wd, q.name + '.relaxed.cbmc.log'))
+                res2['cmd'] = ' '.join(pl.sh_quote(c) for c in cmd2)
+                res2['relaxed_bounds'] = True
+                return q, res2
             return q, res
         results = []
         import threading
@@ -118,7 +127,7 @@ class Check:
         for q, res in results:
             rec = {'query': q.name, 'entry': q.entry, 'unit': q.unit.key, 'config': q.unit.config, 'about': q.about,
                    'bounds': dict(q.bounds, unwind=q.unwind, unwindset=q.unwindset, loop_bounds=q.loop_bounds, object_bits=q.object_bits),
-                   'stats': res['stats'], 'wall_s': res['wall_s'], 'status': res['status'], 'ir': q.unit.info}
+                   'stats': res['stats'], 'wall_s': res['wall_s'], 'status': res['status'], 'ir': q.unit.info, 'relaxed_bounds': res.get('relaxed_bounds', False)}
             records.append(rec)
             if res['status'] != 'done' or res.get('error') or not res['props']:
                 rec['outcome'] = 'inconclusive'
